@@ -95,17 +95,16 @@ Proof.
   apply nilb_nil in H3, H5, H6. apply negb_true_iff in H7. subst. reflexivity.
 Qed.
 
-(* F2: after feed("\x1b[M\x1b"); flush() a character is still buffered although
-   no paste is open.  Keys emitted: Escape, '[', 'M'. *)
-Lemma flush_leaves_prefix :
-  let st := flush (feed [27; 91; 77; 27] init) in
+(* F2 at the pinned commit: after feed("\x1b[M\x1b"); flush() a character was
+   still buffered although no paste was open.  Keys emitted: Escape, '[', 'M'. *)
+Lemma flush_pinned_leaves_prefix :
+  let st := flush_pinned (feed [27; 91; 77; 27] init) in
   prefix st = [27] /\ in_paste st = false /\ oof st = false /\
   out st = [(KKey key_Escape, [27]); (KChar 91, [91]); (KChar 77, [77])].
 Proof. vm_compute. repeat split. Qed.
 
-(* ... while with the flush flag kept across retries (fixes/C03-flush-retry.patch)
-   the same input is fully decoded. *)
-Lemma flush_fixed_witness :
-  let st := flush_fixed (feed [27; 91; 77; 27] init) in
+(* ... while the repaired loop decodes the same input fully. *)
+Lemma flush_witness :
+  let st := flush (feed [27; 91; 77; 27] init) in
   prefix st = [] /\ out st = [(KKey key_Escape, [27]); (KChar 91, [91]); (KChar 77, [77]); (KKey key_Escape, [27])].
 Proof. vm_compute. repeat split. Qed.
